@@ -9,8 +9,12 @@ solution sequence, the terminal status, the final clause/2 listing and a final
 call of the predicate.
 """
 import itertools
+import json
+import os
+import select
+import time
 
-from vx.core import px
+from vx.core import px, pool
 from vx.model import grpe
 
 ID = "C09"
@@ -35,47 +39,39 @@ ASSUMPTIONS = ["the snapshot model (each iterator sees the clauses alive when it
                "driver transport"]
 MIN_OUTCOMES = 4
 
-ITEMS = [("call",), ("callk", 1), ("callk", 2), ("clause",), ("ret",),
+ITEMS = [("call",), ("callk", 1), ("callk", 2), ("ret",),
          ("az", 1), ("az", 3), ("aa", 1), ("aa", 3), ("retk", 1), ("retk", 2),
          ("rall",), ("rallk", 2), ("abol",), ("cut",)]
+# clause/2 as a live iterator is a separate small family: the statement only says that clause/2
+# sees the database as modified, so there only abnormal endings (panic, hang) are reported
+CL_UPD = [("ret",), ("az", 1), ("aa", 1), ("retk", 1), ("retk", 2), ("rall",), ("rallk", 2), ("abol",)]
 DBS = [[], [1], [1, 2], [1, 2, 3], [2, 1, 2]]
 SHAPES = ["A", "B", "C"]
 CAP = 64
-ITER = {"call", "clause", "ret", "callk", "retk"}
-UPD = {"az", "aa", "ret", "retk", "rall", "rallk", "abol"}
+CPU_LIMIT = 0.4    # seconds of worker CPU time for one history (a normal one needs a few ms)
 
 
 def nmax(tier):
-    return 5 if tier == "thorough" else 4
+    return 4 if tier == "thorough" else 3
 
 
 def bound_text(tier):
-    return "all histories of length <= %d over 15 operations x 5 initial databases x 3 clause shapes" % nmax(tier)
+    return ("all histories of length <= %d over 14 operations x 5 initial databases x 3 clause shapes "
+            "%s" 
+            "(a history is not extended once it ended in a panic or hang); clause/2-iterator family of length 2"
+            % (nmax(tier), "" if tier == "thorough" else "(shapes B and C over the initial databases [1,2,3] and [2,1,2] only) "))
 
 
 def shards(tier):
     sh = []
     for shape in SHAPES:
         for dbi in range(len(DBS)):
+            if tier != "thorough" and shape != "A" and dbi < 3:
+                continue   # quick: the shapes B and C only over the two largest initial databases
             for first in range(len(ITEMS)):
-                if tier == "thorough":
-                    for second in range(len(ITEMS)):
-                        sh.append((shape, dbi, first, second))
-                else:
-                    sh.append((shape, dbi, first))
+                sh.append((shape, dbi, first))
+            sh.append((shape, dbi, "cl"))
     return sh
-
-
-def histories(shard, tier):
-    n = nmax(tier)
-    prefix = [ITEMS[i] for i in shard[2:]]
-    if len(prefix) == 2:
-        # the length-1 history is emitted by the shard whose second index is 0
-        if shard[3] == 0:
-            yield prefix[:1]
-    for ln in range(0, n - len(prefix) + 1):
-        for t in itertools.product(ITEMS, repeat=ln):
-            yield prefix + list(t)
 
 
 # ---------------------------------------------------------------------------
@@ -89,14 +85,22 @@ class CapReached(Exception):
     pass
 
 
-def model(shape, db0, items, dead_yields, rall_creates):
-    """-> (status, sols, final listing or None if the predicate is unknown, live_update, flags consulted)"""
+def model(shape, db0, items, dead_yields=True, rall_creates=False):
+    """Snapshot model.  -> dict(status, sols, final (None = unknown predicate), inter (set of
+    'iterator<update' pairs executed while the iterator still had untried alternatives),
+    emptied (operation kind executed first after the predicate lost its last clause under a
+    live iterator, or None), used (which of the two open choices were consulted))"""
     clauses = [[k, True] for k in db0]   # [value, alive]; list order = database order
-    st = {"exists": True, "live": False, "dy": False, "rc": False}
+    st = {"exists": True, "dy": False, "rc": False, "emptied": None}
+    inter = set()
     n = len(items)
     sols = []
     vals = [None] * n
-    open_iters = [0]                     # iterators to the left that still have untried alternatives
+    open_iters = []                      # kinds of the iterators to the left that still have untried alternatives
+
+    def note(upd):
+        for k in open_iters:
+            inter.add("%s<%s" % (k, upd))
 
     def solve(i):
         """returns True when a cut was executed to the right (drop the remaining alternatives)"""
@@ -107,11 +111,14 @@ def model(shape, db0, items, dead_yields, rall_creates):
             return False
         it = items[i]
         k = it[0]
+        if (st["emptied"] is None and k != "cut" and st["exists"] and open_iters and clauses
+                and not any(c[1] for c in clauses)):
+            st["emptied"] = k
         if k == "cut":
-            saved = open_iters[0]
-            open_iters[0] = 0
+            saved = open_iters[:]
+            del open_iters[:]
             solve(i + 1)
-            open_iters[0] = saved
+            open_iters[:] = saved
             return True
         if k in ("call", "callk", "clause", "ret", "retk"):
             if not st["exists"]:
@@ -119,32 +126,39 @@ def model(shape, db0, items, dead_yields, rall_creates):
                     raise PErr()
                 return False
             want = it[1] if k in ("callk", "retk") else None
-            # the snapshot: clauses alive (and matching) when the goal is called
-            snap = [c for c in clauses if c[1] and (want is None or c[0] == want)]
+            # the snapshot: clauses alive (and matching) when the goal is called.  A call with a bound
+            # value only has its first-argument index in shape A; in the shapes B and C it walks all
+            # clauses, so the clauses that do not match are still untried alternatives (no solutions).
+            walk_all = k == "callk" and shape != "A"
+            snap = [c for c in clauses if c[1] and (want is None or walk_all or c[0] == want)]
             removing = k in ("ret", "retk")
             for j, c in enumerate(snap):
-                rem = 1 if j < len(snap) - 1 else 0
+                rem = j < len(snap) - 1
+                if walk_all and c[0] != want:
+                    continue
+                if rem:
+                    open_iters.append(k)
                 if removing:
                     if c[1]:
-                        if open_iters[0] + rem > 0:
-                            st["live"] = True
+                        note(k)
                         c[1] = False
                     else:
                         st["dy"] = True
                         if not dead_yields:
+                            if rem:
+                                open_iters.pop()
                             continue
-                open_iters[0] += rem
                 vals[i] = c[0] if want is None else None
                 r = solve(i + 1)
-                open_iters[0] -= rem
+                if rem:
+                    open_iters.pop()
                 if r:
                     vals[i] = None
                     return True
             vals[i] = None
             return False
         # deterministic updates
-        if open_iters[0] > 0:
-            st["live"] = True
+        note(k)
         if k == "az":
             st["exists"] = True
             clauses.append([it[1], True])
@@ -175,7 +189,8 @@ def model(shape, db0, items, dead_yields, rall_creates):
     except CapReached:
         status = "cap"
     final = [c[0] for c in clauses if c[1]] if st["exists"] else None
-    return status, sols, final, st["live"], (st["dy"], st["rc"])
+    return {"status": status, "sols": sols, "final": final, "inter": inter, "emptied": st["emptied"],
+            "used": (st["dy"], st["rc"])}
 
 
 # ---------------------------------------------------------------------------
@@ -222,7 +237,8 @@ def item_text(shape, p, it, i):
     raise ValueError(it)
 
 
-def goals_for(shape, p, db0, items):
+def command_for(shape, p, db0, items):
+    """one driver command: [build the initial database, the history, clause/2 listing, final call]"""
     gs = []
     if db0:
         gs.append(", ".join("assertz(%s)" % fact_text(shape, p, k, "S%d" % j) for j, k in enumerate(db0)))
@@ -231,16 +247,21 @@ def goals_for(shape, p, db0, items):
     gs.append(", ".join(item_text(shape, p, it, i) for i, it in enumerate(items)))
     gs.append(item_text(shape, p, ("clause",), 99))
     gs.append(item_text(shape, p, ("call",), 99))
-    return gs
+    return "multi([%s]) ." % ",".join("(%s)" % g for g in gs)
 
 
 # ---------------------------------------------------------------------------
 
-def observe(rs, items):
-    """-> (status, sols, listing, callres) from the Res of [setup, query, listing, call]"""
+def observe(x, items):
+    """raw worker answer -> (status, sols, listing, callres)"""
+    abn = pool.abnormal_sig(x)
+    if abn:
+        return ("abn:" + abn, None, None, None)
+    rs = grpe.split_multi(x, 4)
+    s0 = rs[0]
+    if s0.status != "done" or len(s0.sols) != 1:
+        return ("setup:" + str(s0.status), None, None, None)
     q = rs[1]
-    if q.abn:
-        return ("abn:" + q.abn, None, None, None)
     status = q.status
     if status == "exc":
         f = q.formal()
@@ -250,11 +271,9 @@ def observe(rs, items):
         sols.append(tuple((s.get("X%d" % i) if it[0] in ("call", "clause", "ret") else None)
                           for i, it in enumerate(items)))
     lst = rs[2]
-    listing = [s.get("X99") for s in lst.sols] if lst.status == "done" and not lst.abn else "status:%s" % (lst.abn or lst.status)
+    listing = [s.get("X99") for s in lst.sols] if lst.status == "done" else "status:%s" % lst.status
     c = rs[3]
-    if c.abn:
-        callres = "abn:" + c.abn
-    elif c.status == "exc":
+    if c.status == "exc":
         f = c.formal()
         callres = "unknown" if isinstance(f, tuple) and f[0] == "existence_error" else "exc:" + px.formal_sig(f)
     else:
@@ -263,9 +282,10 @@ def observe(rs, items):
 
 
 def expected_variants(shape, db0, items):
-    """the acceptable observations; the two open choices are only expanded when the history consults them"""
+    """-> (acceptable observations, model facts of the primary variant); the two open choices
+    are only expanded when the history consults them"""
     out = []
-    live = False
+    first = None
     todo = [(True, False)]
     seen = set()
     while todo:
@@ -273,75 +293,173 @@ def expected_variants(shape, db0, items):
         if (dy, rc) in seen:
             continue
         seen.add((dy, rc))
-        status, sols, final, lv, (udy, urc) = model(shape, db0, items, dy, rc)
-        live = live or lv
-        listing = final if final is not None else []
-        callres = final if final is not None else "unknown"
-        e = (status, sols, listing, callres)
+        m = model(shape, db0, items, dy, rc)
+        if first is None:
+            first = m
+        final = m["final"]
+        e = (m["status"], m["sols"], final if final is not None else [], final if final is not None else "unknown")
         if e not in out:
             out.append(e)
-        if udy:
+        if m["used"][0]:
             todo.append((not dy, rc))
-        if urc:
+        if m["used"][1]:
             todo.append((dy, not rc))
-    return out, live
+    return out, first
 
 
-def pattern(items):
-    return ",".join(it[0] for it in items)
+def is_subseq(a, b):
+    it = iter(b)
+    return all(any(x == y for y in it) for x in a)
 
 
 def diff_kind(obs, exp):
-    names = ["status", "sols", "final", "call"]
-    return "+".join(n for n, a, b in zip(names, obs, exp) if a != b)
+    """what differs, in a form that separates the defect classes"""
+    parts = []
+    if obs[0] != exp[0]:
+        parts.append("status:%s>%s" % (exp[0], obs[0]))
+    if obs[1] != exp[1]:
+        if len(obs[1]) < len(exp[1]) and is_subseq(obs[1], exp[1]):
+            parts.append("sols:lost")
+        elif len(obs[1]) > len(exp[1]) and is_subseq(exp[1], obs[1]):
+            parts.append("sols:extra")
+        else:
+            parts.append("sols:other")
+    if obs[2] != exp[2]:
+        parts.append("final")
+    if obs[3] != exp[3] and obs[3] != obs[2]:
+        parts.append("call:%s" % (obs[3] if isinstance(obs[3], str) else
+                                   "lost" if is_subseq(obs[3], obs[2] if isinstance(obs[2], list) else []) else "other"))
+    return "+".join(parts)
 
 
-def judge(shape, db0, items, rs):
+def judge(shape, db0, items, x):
     """-> (label, nontrivial, sig or None, observed, expected)"""
-    exps, live = expected_variants(shape, db0, items)
-    obs = observe(rs, items)
-    s0 = rs[0]
-    if s0.abn or s0.status != "done" or len(s0.sols) != 1:
-        return "setup_failed", live, "%s setup %s" % (shape, s0.abn or s0.status), str(s0), "setup succeeds"
+    exps, m = expected_variants(shape, db0, items)
+    obs = observe(x, items)
+    nt = bool(m["inter"])
+    cl = items[0][0] == "clause"
     if obs in exps:
         label = "%s:%s" % (obs[0], "n" if not obs[1] else ("1" if len(obs[1]) == 1 else "m"))
-        if live:
+        if nt:
             label += ":live"
-        return label, live, None, obs, None
+        return label, nt, None, obs, None
+    if cl and not obs[0].startswith("abn:"):
+        # clause/2 as a live iterator: only abnormal endings are in scope
+        return "clause_iter:differs(not compared)", nt, None, obs, None
     e = exps[0]
+    ctx = "live={%s} emptied=%s" % (",".join(sorted(m["inter"])) or "-", m["emptied"] or "-")
     if obs[0].startswith("abn:"):
-        sig = "%s [%s] %s" % (shape, pattern(items), obs[0])
+        # panic, hang and crash are one class: which of them a derailed dispatch loop ends in
+        # depends on the heap contents, so the kind is not part of the signature
+        what = "abnormal"
+    elif obs[0].startswith("setup:"):
+        what = obs[0]
     else:
-        sig = "%s [%s] diff=%s" % (shape, pattern(items), diff_kind(obs, e))
-    return "mismatch", live, sig, obs, e
+        what = "diff=" + diff_kind(obs, e)
+    return "mismatch", nt, "%s %s %s" % (shape, what, ctx), obs, e
 
 
-def run_batch(w, shape, db0, hs, acc, states):
-    w.new_machine()
+_SERIAL = [0]
+_TICK = os.sysconf("SC_CLK_TCK")
+
+
+def _cpu_s(pid):
+    try:
+        with open("/proc/%d/stat" % pid) as f:
+            parts = f.read().rsplit(")", 1)[1].split()
+        return (int(parts[11]) + int(parts[12])) / _TICK
+    except (OSError, IndexError, ValueError):
+        return 0.0
+
+
+def rpc_cpu(w, req, cpu_limit=CPU_LIMIT, wall_limit=60.0):
+    """one request with a horizon measured in CPU time of the worker process (the machine is
+    shared, so a wall-clock horizon short enough to make the many non-terminating histories
+    affordable would misfire under load).  Raises pool.WorkerDied('hang'|'exit')."""
+    w.p.stdin.write((json.dumps(req) + "\n").encode("utf-8"))
+    w.p.stdin.flush()
+    fd = w.p.stdout.fileno()
+    c0 = _cpu_s(w.p.pid)
+    t0 = time.time()
+    while b"\n" not in w.buf:
+        r, _, _ = select.select([fd], [], [], 0.05)
+        if r:
+            chunk = os.read(fd, 1 << 20)
+            if not chunk:
+                raise pool.WorkerDied("exit", w.p.wait())
+            w.buf += chunk
+            continue
+        if _cpu_s(w.p.pid) - c0 > cpu_limit or time.time() - t0 > wall_limit:
+            raise pool.WorkerDied("hang")
+    line, w.buf = w.buf.split(b"\n", 1)
+    return json.loads(line.decode("utf-8", "replace"))
+
+
+def execute(w, shape, db0, hs):
+    """runs the histories, each on a fresh predicate and as its own request (so that a panic or
+    hang cannot disturb another history); -> raw answers"""
     ar = 2 if shape == "B" else 1
-    names = ["h%d" % i for i in range(len(hs))]
-    for part in px.chunked(names, 2000):
-        grpe.consult_checked(w, "\n".join(":- dynamic(%s/%d)." % (n, ar) for n in part) + "\n")
-    cmds = [goals_for(shape, n, db0, items) for n, items in zip(names, hs)]
-    allres = grpe.run_multi(w, cmds, chunk=200)
-    for items, rs in zip(hs, allres):
-        label, nt, sig, obs, exp = judge(shape, db0, items, rs)
-        acc.case(nt, label, sample={"shape": shape, "db": db0, "history": [list(i) for i in items],
-                                    "observed": px._j(obs)})
-        acc.transitions += 1
-        if isinstance(obs, tuple) and isinstance(obs[2], list):
-            states.add(tuple(obs[2]))
-        if sig:
-            acc.violation(sig, {"shape": shape, "db": db0, "items": [list(i) for i in items]},
-                          expected=repr(exp), observed=repr(obs))
+    out = []
+    keep = [c for c in w.setup_consults if not c[0].startswith(":- dynamic(h")]
+    for group in px.chunked(hs, 150):
+        names = []
+        for _ in group:
+            _SERIAL[0] += 1
+            names.append("h%d" % _SERIAL[0])
+        # declared in small groups; the pool re-applies the current group whenever the machine is rebuilt
+        w.setup_consults = list(keep)
+        grpe.consult_checked(w, "\n".join(":- dynamic(%s/%d)." % (n, ar) for n in names) + "\n", persist=True)
+        for n, items in zip(names, group):
+            # one request per history; a hang is detected by a CPU-time horizon and costs one worker restart
+            # (pool.Worker.q would run the case a second time to attribute it, which is not needed here)
+            try:
+                r = rpc_cpu(w, {"op": "q", "cases": [command_for(shape, n, db0, items)]})
+                x = r["r"][0]
+                if "panic" in x:
+                    w._reapply_setup()
+            except pool.WorkerDied as d:
+                w.restart()
+                x = {"o": "", "hang": True} if d.how == "hang" else {"o": "", "crash": d.rc}
+            out.append(x)
+    w.setup_consults = keep
+    return out
+
+
+def record(acc, states, shape, db0, items, x):
+    label, nt, sig, obs, exp = judge(shape, db0, items, x)
+    acc.case(nt, label, sample={"shape": shape, "db": db0, "history": [list(i) for i in items],
+                                "observed": px._j(repr(obs))})
+    acc.transitions += 1
+    if isinstance(obs[2], list):
+        states.add(tuple(obs[2]))
+    if sig:
+        acc.violation(sig, {"shape": shape, "db": db0, "items": [list(i) for i in items]},
+                      expected=repr(exp), observed=repr(obs))
+    return obs[0].startswith("abn:")
 
 
 def run_shard(w, shard, tier):
     acc = px.ShardAcc()
-    shape, dbi = shard[0], shard[1]
+    shape, dbi, first = shard
+    db0 = DBS[dbi]
+    w.new_machine()
     states = set()
-    for part in px.chunked(histories(shard, tier), 4000):
-        run_batch(w, shape, DBS[dbi], part, acc, states)
+    if first == "cl":
+        hs = [[("clause",), u] for u in CL_UPD] + [[("clause",), u, ("call",)] for u in CL_UPD]
+        for items, x in zip(hs, execute(w, shape, db0, hs)):
+            record(acc, states, shape, db0, items, x)
+    else:
+        level = [[ITEMS[first]]]
+        for ln in range(1, nmax(tier) + 1):
+            nxt = []
+            for part in px.chunked(level, 3000):
+                for items, x in zip(part, execute(w, shape, db0, part)):
+                    abnormal = record(acc, states, shape, db0, items, x)
+                    if abnormal:
+                        acc.extra["not_extended_after_abnormal"] += 1
+                    elif ln < nmax(tier):
+                        nxt.append(items)
+            level = [h + [it] for h in nxt for it in ITEMS]
     acc.states = len(states)
     return acc.result()
 
@@ -349,5 +467,6 @@ def run_shard(w, shard, tier):
 def recheck(w, case, tier):
     acc = px.ShardAcc()
     items = [tuple(i) for i in case["items"]]
-    run_batch(w, case["shape"], case["db"], [items], acc, set())
+    x = execute(w, case["shape"], case["db"], [items])[0]
+    record(acc, set(), case["shape"], case["db"], items, x)
     return acc.violations[0] if acc.violations else None
